@@ -105,6 +105,9 @@ type Sim struct {
 	// OnRequest, if set, is called (outside the lock) for every request after it
 	// has been logged; n is the global 0-based request index.
 	OnRequest func(n int, r *Request)
+	// OnDeliver, if set, is called when the reply to request n has been made
+	// and is about to be handed to the client (so the client does receive it).
+	OnDeliver func(n int)
 	// Default, if set, serves requests that match no route.
 	Default   Handler
 	nreq      int
@@ -458,6 +461,9 @@ func (s *Sim) RoundTrip(hr *http.Request) (resp *http.Response, err error) {
 	s.bodies++
 	s.mu.Unlock()
 	rc = &trackedBody{ReadCloser: rc, s: s, slow: rep.SlowClose}
+	if od := s.OnDeliver; od != nil {
+		od(n)
+	}
 	return &http.Response{
 		StatusCode: st, Status: fmt.Sprintf("%d %s", st, http.StatusText(st)),
 		Proto: "HTTP/1.1", ProtoMajor: 1, ProtoMinor: 1,
